@@ -301,4 +301,26 @@ PROPERTIES = {
                          "transit_messages_due_while_down": 1000000, "transit_messages_in_flight_at_shutdown": 100000, "log_entries_checked": 100000000},
         },
     },
+    "C12": {
+        "level": "exploration",
+        "rule": ("declared module trees (2..25 nodes, depth <= 4, fan-out <= 4, sibling names from {a, ab, a1, b, a[0], abc, node, node1, node10, x_y, non-ASCII}, "
+                 "0..4 start stages per module, nodes created directly or through a ModuleBlock with a scoped builder) inserted in EVERY valid order (parents first) "
+                 "for trees of <= 6 nodes and in random valid orders above; each module schedules a self message. All at_sim_start / handle_message / at_sim_end "
+                 "calls log into one sequence. Oracle from the declaration alone: start sequence == stage-major x depth-first pre-order with siblings in creation "
+                 "order, exactly once per declared stage; at_sim_end exactly once per module and after the last event callback; current().path / name / parent / "
+                 "child agree with the tree inside every callback; Sim::nodes() == declared set; duplicate path and missing parent rejected by a panic (fresh "
+                 "builder per probe); ObjectPath (as_str, len, name, parent, as_parent_str, nonzero_parent, appended) against string splitting. Non-trivial = "
+                 "tree with >= 3 nodes and at least one child; distinct = hash of (tree, insertion order)."),
+        "exhaustive_part": "all valid insertion orders for every generated tree with <= 6 nodes",
+        "assumptions": ["the relative order of at_sim_end calls among modules is not constrained by the statement and is not checked"],
+        "stages": [
+            native("trees", "desmon", "c12", tiers=QT, timeout={"quick": 900, "thorough": 5400}),
+        ],
+        "floor": {
+            "quick": {"insertion_orders_executed": 100000, "start_calls_checked": 1000000, "trees_with_all_insertion_orders": 2000,
+                      "trees_with_prefix_sharing_siblings": 50000, "builder_rejection_probes": 10000, "insertion_orders_not_in_declaration_order": 90000},
+            "thorough": {"insertion_orders_executed": 2000000, "start_calls_checked": 20000000, "trees_with_all_insertion_orders": 40000,
+                         "builder_rejection_probes": 200000},
+        },
+    },
 }
